@@ -19,14 +19,20 @@ impl Normalization {
     }
 
     pub(crate) fn operation(self, op: &str) -> Cow<'_, str> {
+        #[cfg(graphql_client_verif)]
+        crate::verif_hooks::yield_point("normalization.operation");
         self.camel_case(op)
     }
 
     pub(crate) fn enum_variant(self, enm: &str) -> Cow<'_, str> {
+        #[cfg(graphql_client_verif)]
+        crate::verif_hooks::yield_point("normalization.enum_variant");
         self.camel_case(enm)
     }
 
     pub(crate) fn enum_name(self, enm: &str) -> Cow<'_, str> {
+        #[cfg(graphql_client_verif)]
+        crate::verif_hooks::yield_point("normalization.enum_name");
         self.camel_case(enm)
     }
 
@@ -39,14 +45,20 @@ impl Normalization {
     }
 
     pub(crate) fn field_type(self, fty: &str) -> Cow<'_, str> {
+        #[cfg(graphql_client_verif)]
+        crate::verif_hooks::yield_point("normalization.field_type");
         self.field_type_impl(fty)
     }
 
     pub(crate) fn input_name(self, inm: &str) -> Cow<'_, str> {
+        #[cfg(graphql_client_verif)]
+        crate::verif_hooks::yield_point("normalization.input_name");
         self.camel_case(inm)
     }
 
     pub(crate) fn scalar_name(self, snm: &str) -> Cow<'_, str> {
+        #[cfg(graphql_client_verif)]
+        crate::verif_hooks::yield_point("normalization.scalar_name");
         self.camel_case(snm)
     }
 }
